@@ -433,3 +433,38 @@ func ParamOf(v ssa.Value) *ssa.Parameter {
 
 // IsParam reports whether v denotes parameter p.
 func IsParam(v ssa.Value, p *ssa.Parameter) bool { return ParamOf(v) == p }
+
+// FactsAtDeep is FactsAt plus the conjuncts hidden in short-circuit phis: a
+// fact `phi == true` where every edge but one carries the constant false means
+// the remaining edge was taken (so the facts of its source block hold) and
+// its value is true — and dually for `||`.
+func FactsAtDeep(b *ssa.BasicBlock) []CondFact {
+	out := FactsAt(b)
+	seen := map[ssa.Value]bool{}
+	for i := 0; i < len(out); i++ {
+		ph, ok := out[i].Cond.(*ssa.Phi)
+		if !ok || seen[ph] {
+			continue
+		}
+		seen[ph] = true
+		live := -1
+		n := 0
+		for j, e := range ph.Edges {
+			if k, isC := e.(*ssa.Const); isC && isBoolConst(k, !out[i].Truth) {
+				continue
+			}
+			live = j
+			n++
+		}
+		if n != 1 {
+			continue
+		}
+		pred := ph.Block().Preds[live]
+		cv, truth := StripNot(ph.Edges[live], out[i].Truth)
+		if _, isC := cv.(*ssa.Const); !isC {
+			out = append(out, CondFact{Cond: cv, Truth: truth, If: out[i].If})
+		}
+		out = append(out, FactsAt(pred)...)
+	}
+	return out
+}
